@@ -60,6 +60,7 @@ VARIANTS = {
              "clang", "-fsanitize=address,undefined"),
     "tsan": ([], "-O1 -g -fsanitize=thread", "clang", "-fsanitize=thread"),
     "extra": ([], "-O2 -DEAV_EXTRA", "cc", ""),
+    "debug": ([], "-O0 -g", "cc", ""),
 }
 
 
@@ -108,8 +109,15 @@ def build(ctx, variant="default", optbits=0, backend="idn2", targets=("static",)
     return b
 
 
-def compile_driver(ctx, b, src, extra=(), link_extra=()):
-    out = os.path.join(os.path.dirname(b["dir"]), os.path.splitext(os.path.basename(src))[0])
+WRAP_FLAGS = ["-Wl,--wrap=malloc,--wrap=free,--wrap=strndup,--wrap=idn2_to_ascii_8z"]
+
+
+def compile_driver(ctx, b, src, extra=(), link_extra=(), name=None, wrap=False):
+    if wrap:
+        extra = list(extra) + ["-DVERIF_WRAP"]
+        link_extra = [os.path.join(VERIF, "harness", "wrap.c")] + WRAP_FLAGS + list(link_extra)
+        name = (name or os.path.splitext(os.path.basename(src))[0]) + "-wrap"
+    out = os.path.join(os.path.dirname(b["dir"]), name or os.path.splitext(os.path.basename(src))[0])
     if os.path.exists(out):
         return out
     cflags = b["cflags"].replace("-std=c99", "-std=gnu99").replace("-pedantic", "")
@@ -257,11 +265,16 @@ def run_driver(ctx, exe, args, stdin_path=None, timeout=3000, env=None):
             fi.close()
 
 
-def replay(ctx, b, vectors_path, tag, stride=8, timeout=3000):
+def replay(ctx, b, vectors_path, tag, stride=8, timeout=3000, wrap=False, valgrind=False):
     """feed TLC's vector lines to the replay driver linked with build b; returns dict(summary, viol, drift_path, crash)"""
-    exe = compile_driver(ctx, b, "replay.c")
-    od = ctx.path("replay", "%s-%s" % (tag, b["name"]), "x")[:-2]
-    rc, so, se = run_driver(ctx, exe, [od, str(stride)], stdin_path=vectors_path, timeout=timeout)
+    exe = compile_driver(ctx, b, "replay.c", wrap=wrap)
+    od = ctx.path("replay", "%s-%s%s%s" % (tag, b["name"], "-wrap" if wrap else "", "-vg" if valgrind else ""), "x")[:-2]
+    if valgrind:
+        vg = ["valgrind", "-q", "--error-exitcode=95", "--leak-check=full", "--errors-for-leak-kinds=definite,indirect",
+              "--undef-value-errors=yes", "--track-origins=no", exe, od, "0"]
+        rc, so, se = run_driver(ctx, vg[0], vg[1:], stdin_path=vectors_path, timeout=timeout)
+    else:
+        rc, so, se = run_driver(ctx, exe, [od, str(stride)], stdin_path=vectors_path, timeout=timeout)
     res = {"outdir": od, "rc": rc, "stderr": se[-4000:], "viol": [], "summary": {}, "crash": None,
            "drift_path": os.path.join(od, "drift.ndjson"), "build": b["name"]}
     vp = os.path.join(od, "viol.ndjson")
@@ -277,7 +290,10 @@ def replay(ctx, b, vectors_path, tag, stride=8, timeout=3000):
             cur = open(os.path.join(od, "current.txt")).read()
         except OSError:
             pass
-        res["crash"] = {"exit": rc, "current": cur[-3000:], "stderr": se[-3000:]}
+        if rc == 95 and os.path.exists(os.path.join(od, "summary.json")):
+            res["summary"] = json.load(open(os.path.join(od, "summary.json")))
+        res["crash"] = {"exit": rc, "current": cur[-3000:] if rc != 95 else "", "stderr": se[:3000] if rc == 95 else se[-3000:],
+                        "monitor": "valgrind" if rc == 95 else "asan" if rc == 97 else "ubsan" if rc == 98 else "tsan" if rc == 96 else ""}
     for k in ("vectors", "calls", "checked", "pinned", "drift"):
         pass
     if res["summary"]:
